@@ -211,6 +211,7 @@ def _progress(ev):
 
 
 def _finish(res, rec, ctx, lp):
+    rec.event_cap = 10 ** 9          # closing records are always written
     if lp is not None:
         for name, exc in lp.dead_tasks():
             d = describe_exc(exc)
